@@ -327,6 +327,9 @@ func runParse(c *Case, tr *Trace) {
 			panic("harness: unknown entry " + entry)
 		}
 	}
+	if c.Fmt == "json" {
+		tr.NumTab = numTabFor(doc)
+	}
 	parseDoc(rec, c.Entry)
 	if c.Measure {
 		cv := &CountVisitor{}
